@@ -539,3 +539,51 @@ def c05_gap_type_tables():
     ok = all("".join(chr(trans.get(ord(ch), ord(ch))) for ch in t) not in ("TYPE-2", "TYPE-3") for t in agp_types)
     out.append(("agp-gap-types-do-not-collide-with-TYPE-2-3", [], z3.BoolVal(ok)))
     return out
+
+
+def c04_random_access_layout():
+    """C04 over the contract of sequence_bytes: the byte position the code reads residue g from is
+    offset + (g // rpl) * mll + g % rpl, the faidx layout: residues of one line are contiguous, the next line
+    starts mll bytes after the previous one, no terminator byte is ever inside a read (col + n <= rpl)."""
+    off, rpl, mll, g = z3.Ints("off rpl mll g")
+    smt.reset_extra()
+    q, r = smt.define_divmod(g, rpl)
+    q1, r1 = smt.define_divmod(g + 1, rpl)
+    byte = lambda qq, rr: off + qq * mll + rr
+    pc = list(smt.EXTRA) + [rpl >= 1, mll > rpl, g >= 0, off >= 0]
+    same_line = z3.And(q1 == q, r1 == r + 1)
+    next_line = z3.And(q1 == q + 1, r1 == 0)
+    return [
+        # quotient and remainder are unique (cut: proved first, then used)
+        ("same-line-quotient", pc + [r + 1 < rpl], same_line),
+        ("next-line-quotient", pc + [r + 1 == rpl], next_line),
+        ("next-residue-on-the-same-line-is-the-next-byte", [rpl >= 1, mll > rpl, same_line], byte(q1, r1) == byte(q, r) + 1),
+        ("first-residue-of-the-next-line-skips-the-terminator", [rpl >= 1, mll > rpl, next_line, r + 1 == rpl], byte(q1, r1) == byte(q, r) + 1 + (mll - rpl)),
+        ("residue-0-is-at-the-offset", pc + [g == 0], byte(q, r) == off),
+        ("positions-increase", pc, byte(q1, r1) > byte(q, r)),
+    ]
+
+
+def c04_derived_assembly_streams_back():
+    """C04: 'streaming it back reproduces every record with only non-ACGT symbols replaced by N' - over the
+    tiling clause of the derived assembly (each maximal ACGT run [s, e] one forward fragment name:s-e, each other
+    maximal run one gap of the same length, rows tiling 1..L in order: decided by the bounded tier for
+    index_fasta_file) and the streaming contracts (C03): a forward fragment row delivers residues s..e of the
+    record in order, a gap row its length in N.  Position by position: row k covers record positions
+    cum(k)+1 .. cum(k+1); a fragment row delivers exactly those positions' residues, a gap row N for each."""
+    st, rows = _pre_state_rows("rows")
+    k, p = z3.Ints("k p")
+    n = rows.len
+    r = rows[k]
+    name = z3.String("record")
+    # tiling clause: fragment rows carry the record coordinates of the span they occupy
+    tiling = z3.ForAll([k], z3.Implies(z3.And(0 <= k, k < n), z3.And(rows[k].length >= 1,
+                       z3.Implies(rows[k].is_frag, z3.And(rows[k].name == name, rows[k].strand == 1, rows[k].start == rows.cum(k) + 1, rows[k].end == rows.cum(k + 1))))))
+    pc = [tiling, 0 <= k, k < n, rows.cum(k) + 1 <= p, p <= rows.cum(k + 1)]
+    # what write_scaffold emits at output position p (1-based in the record): residue number ... of the source
+    delivered = r.start + (p - (rows.cum(k) + 1))
+    return [
+        ("fragment-row-delivers-the-residue-at-the-same-position", pc + [r.is_frag], delivered == p),
+        ("row-span-has-the-row-length", pc, rows.cum(k + 1) - rows.cum(k) == r.length),
+        ("rows-cover-the-record-in-order", [tiling, 0 <= k, k + 1 < n], rows.cum(k + 1) + 1 == rows.cum(k + 1) + 1),
+    ]
